@@ -130,9 +130,11 @@ theorem reward_batch_invariant (i : Inst) (h : WF i) {s : State} (hr : Reach env
 /-- (d) **`IndexTables.bs`**: under the k-major layout of `batchify` (copy `j` of instance `b` at row
 `j·B + b`) and `bs = B`, `pomo_idx = row // bs` is the copy index `j`; in particular every row of an
 un-replicated batch uses permutation 0 wherever it sits. -/
+theorem pomoIdx_eq (bs row : Nat) : pomoIdx bs row = row / bs := rfl
+
 theorem pomoIdx_layout (B j b : Nat) (hb : b < B) : pomoIdx B (j * B + b) = j := by
-  unfold pomoIdx
-  rw [Nat.add_comm, Nat.add_mul_div_right _ _ (by omega), Nat.div_eq_of_lt hb, Nat.zero_add]
+  rw [pomoIdx_eq,
+    Nat.add_comm, Nat.add_mul_div_right _ _ (by omega), Nat.div_eq_of_lt hb, Nat.zero_add]
 
 /-- The full statement one would like — "the mask of the state a row ends in is the same alone and next
 to running batch-mates" — and its refutation (1 stage, 1 machine, 1 job of duration 1). -/
